@@ -78,8 +78,12 @@ func oracleS(ops []SOp) (string, int) {
 		al := w.allowed(o, before)
 		for k := range ob.Regs {
 			if !al[k] {
-				return fmt.Sprintf("frame: %s changed register %d which is neither its receiver nor a new object", o.K+o.Ins+o.Op, k), i
+				return fmt.Sprintf("frame: %s changed register %d which is neither its receiver nor a new object (slots %v)", o.K+o.Ins+o.Op, k, ob.Slots), i
 			}
+		}
+		// structural: no two live scalars share the backing array of Derivative, Hessian or a Hessian row
+		if msg := w.sharing(); msg != "" {
+			return fmt.Sprintf("%s after %s", msg, o.K+o.Ins+o.Op), i
 		}
 		for t := range ob.Vecs {
 			if t < nvecs {
@@ -533,6 +537,16 @@ func hunt(o Opts) int {
 			add(Finding{"V", "sparse vector", msg, map[string]interface{}{"stream": "V", "type": vc.Type, "ops": vc.Ops[:at+1]}, at})
 		}
 	}
+	// J: fresh cases of the jet stream under other seeds
+	for k := 0; k < 3; k++ {
+		sd := o.Seed*31 + uint64(k) + 1
+		for i := 0; i < 2*len(jEntries); i++ {
+			if jc := regenJ(sd, i); jc.Bad != "" {
+				add(Finding{"J", "Real containers of jets: " + jc.Entry, jc.Bad,
+					map[string]interface{}{"stream": "J", "entry": jc.Entry, "k32": jc.K32, "fams": jc.Fams, "seed": sd, "index": i}, 0})
+			}
+		}
+	}
 	// slice capacity: Append on a sub-slice with spare capacity (not in the model, see ModelS.v)
 	if f := appendCapacityProbe(); f != nil {
 		add(*f)
@@ -581,6 +595,22 @@ func optClass(s string) string { return s }
 
 func replayCase(stream string, raw json.RawMessage, out string) *Finding {
 	switch stream {
+	case "J":
+		var c struct {
+			Seed  uint64 `json:"seed"`
+			Index int    `json:"index"`
+		}
+		json.Unmarshal(raw, &c)
+		jc := regenJ(c.Seed, c.Index)
+		w := NewCaseWriter(out, "replay_j", hdrJ, "jmism", 10)
+		w.Type = "jcase"
+		w.Add(jc.Coq(), nil, "replay", true)
+		w.Flush()
+		if jc.Bad != "" {
+			return &Finding{"J", "Real containers of jets: " + jc.Entry, jc.Bad,
+				map[string]interface{}{"stream": "J", "entry": jc.Entry, "k32": jc.K32, "fams": jc.Fams, "seed": c.Seed, "index": c.Index}, 0}
+		}
+		return nil
 	case "S":
 		var c struct {
 			Ops []SOp `json:"ops"`
@@ -594,8 +624,8 @@ func replayCase(stream string, raw json.RawMessage, out string) *Finding {
 		}
 		// also emit the correspondence file for the replayed history
 		obs := replayS(c.Ops)
-		w := NewCaseWriter(out, "replay_s", hdr, "smism", 10)
-		w.Type = "scase"
+		w := NewCaseWriter(out, "replay_s", hdr, "smism2", 10)
+		w.Type = "scase2"
 		w.Add(sCaseCoq(obs), nil, "replay", true)
 		w.Flush()
 	case "M":
